@@ -1,6 +1,6 @@
 """Which rules exist, which properties are claimed, their floors and evidence texts."""
 
-RULE_MODULES = ['descent', 'null', 'live', 'gate', 'alloc', 'immobile', 'reset', 'pool', 'stale', 'layer', 'twin', 'listsearch', 'steps', 'segflow', 'unchecked', 'panicsite', 'links', 'entity', 'inorder']
+RULE_MODULES = ['descent', 'null', 'live', 'gate', 'alloc', 'immobile', 'reset', 'pool', 'stale', 'layer', 'twin', 'listsearch', 'steps', 'segflow', 'unchecked', 'panicsite', 'links', 'entity', 'inorder', 'progress']
 
 # rules whose instance set legitimately differs between debug and release-like MIR
 CONFIG_DEPENDENT_RULES = {'PANICSITE'}
@@ -121,10 +121,12 @@ are bits of a layout mask) [UNCHECKED]; every integer + - * << >>, checked index
 discharged by a dominating guard / recognised idiom or by a reasoned table entry [PANICSITE]; the reasons behind
 NULL's exceptions are red-black shape invariants, and the structural checks that protect them in the tree core (the three
 copies of every core function agree, mirror twins and mirrored arms are mirror images, guarded effects are left/right
-symmetric) are part of this check: a repair arm that deviates from its twin is reported here as well [TWIN]. Not decided:
-termination of the repair recursion, arithmetic in the seg layout (C14).""",
+symmetric) are part of this check: a repair arm that deviates from its twin is reported here as well [TWIN]; no loop of
+the library has exit conditions that nothing in the loop can change (a cursor no longer advanced, a removal dropped from a
+purge loop: the definite-hang pattern) [PROGRESS]. Not decided: termination in general (the repair recursion, loops whose
+conditions do change but need not converge), arithmetic in the seg layout (C14).""",
      ["C02 for the reasoned exceptions (inner child of a rotated node, sibling of a double-black node, non-root has a parent); its structural part is re-checked here through TWIN"],
-     {'NULL': 190, 'PROVENANCE': 150, 'STALE': 20, 'UNCHECKED': 14, 'PANICSITE': 60, 'TWIN': 70})
+     {'NULL': 190, 'PROVENANCE': 150, 'STALE': 20, 'UNCHECKED': 14, 'PANICSITE': 60, 'TWIN': 70, 'PROGRESS': 30})
 
 prop('C13', """
 Static analysis (MIR/SSA). Decided clauses so far for the expiring-key list: the purge keeps exactly
